@@ -136,7 +136,11 @@ def mk_cross(pid, g, targets_quick=None):
 # ---------------------------------------------------------------- C15 (source half)
 def special_c15(res, tier, seed, workdir, stats):
     def concrete(f):
-        return f["kind"] in ("global", "extern_block") and not f["test"]
+        if f["test"]:
+            return False
+        if f["kind"] == "global":      # immutable `static` tables are not state (mirrors HH.C15.immutableStatic)
+            return not (f["detail"].startswith("static ") and not f["detail"].startswith("static mut "))
+        return f["kind"] == "extern_block"
     facts_judge(res, "C15", concrete)
     threads_stage(res, tier, seed, workdir, stats)
 
@@ -182,8 +186,73 @@ def c16_concrete(f):
     return False
 
 
+CORE_FILES = ("portable.rs", "internal.rs", "key.rs", "traits.rs", "macros.rs")
+
+
+def portable_closure(facts):
+    """mirror of HH.FactsLib.portableClosure (only used to name the offending spans in the replay; the
+    decision is the Lean theorem C16.module_closure over the same table)"""
+    files = sorted({f["file"] for f in facts})
+
+    def module_files(m):
+        return [f for f in files if f == m + ".rs" or f.startswith(m + "/")]
+
+    def reexport(name):
+        for f in facts:
+            segs = f["detail"].split("::")
+            if f["file"] == "lib.rs" and f["kind"] == "crate_path" and not f["test"] and len(segs) >= 3 and segs[-1] == name:
+                return segs[1]
+        return None
+
+    def targets(p):
+        segs = p.split("::")
+        if len(segs) < 2:
+            return []
+        m = segs[1]
+        if module_files(m):
+            return module_files(m)
+        m2 = reexport(m)
+        return module_files(m2) if m2 else ["lib.rs"]
+
+    def stem(file):
+        s_ = file[:-3]
+        return s_[:-4] if s_.endswith("/mod") else s_
+
+    def refs(file):
+        out = []
+        for f in facts:
+            if f["file"] != file or f["test"]:
+                continue
+            if f["kind"] == "crate_path":
+                out += [(t, f) for t in targets(f["detail"])]
+            elif f["kind"] == "mod" and " inline" not in f["detail"] and file != "lib.rs":
+                out += [(t, f) for t in module_files(stem(file) + "/" + f["detail"].split(" ")[0])]
+        return out
+    cur = list(CORE_FILES)
+    why = {}
+    for _ in range(len(files)):
+        for file in list(cur):
+            for t, f in refs(file):
+                if t not in cur:
+                    cur.append(t)
+                    why[t] = f
+    return cur, why
+
+
 def special_c16(res, tier, seed, workdir, stats):
     facts_judge(res, "C16", c16_concrete)
+    if getattr(res, "facts", None):
+        clo, why = portable_closure(res.facts)
+        extra = [f for f in res.facts if f["file"] in clo and f["file"] not in PORTABLE_FILES and
+                 (f["kind"] in ("unsafe", "unsafe_attr", "extern_block", "ptr") or
+                  (f["kind"] in ("lint", "crate_attr") and "unsafe_code" in f["detail"] and not re.match(r"^(inner|outer) (deny|forbid)\(unsafe_code\)$", f["detail"])))]
+        res.cov["portable_closure_files"] = clo
+        if extra:
+            reached = sorted({f["file"] for f in extra})
+            res.replay(dict(kind="impl-violates-property",
+                            message=f"the portable path reaches unsafe code outside its own files: {reached}",
+                            reached_through=[span(why[t]) for t in reached if t in why], spans=[span(f) for f in extra[:20]]))
+            res.n_oracle_fail += 1
     if getattr(res, "facts", None) and not any(f["file"] == "lib.rs" and f["kind"] == "lint" and re.match(r"^inner (deny|forbid)\(unsafe_code\)$", f["detail"]) for f in res.facts):
         res.replay(dict(kind="impl-violates-property", message="src/lib.rs no longer carries #![deny(unsafe_code)]"))
         res.n_oracle_fail += 1
